@@ -94,3 +94,29 @@ Theorem pair_mixed s d : same_family s d = false ->
   v1_of_pair s d = Unknown /\ v2_of_pair s d = AUnspec
   /\ fmt1 (v1_of_pair s d) = PROXY ++ [SP] ++ UNKNOWN ++ CRLF /\ enc_addrs (v2_of_pair s d) = [].
 Proof. destruct s, d; cbn [same_family]; intros H; try discriminate H; repeat split. Qed.
+
+(* both versions, one pair: the peer of a v1 sender and the peer of a v2 sender read the same endpoints *)
+Lemma pair_block_small s d : wf_sock s = true -> wf_sock d = true -> lenN (enc_addrs (v2_of_pair s d)) <= 36.
+Proof.
+  destruct s as [a p|a p f1 s1], d as [b q|b q f2 s2]; cbn [wf_sock v2_of_pair v2_of_ip4 v2_of_ip6 ip_new enc_addrs
+    source_address destination_address source_port destination_port]; intros Hs Hd;
+  repeat (apply andb_true_iff in Hs; destruct Hs as [Hs ?]); repeat (apply andb_true_iff in Hd; destruct Hd as [Hd ?]);
+  rewrite ?lenN_app; cbn [lenN]; try lia.
+Qed.
+
+Theorem pair_cross_version cmd tr s d : wf_sock s = true -> wf_sock d = true ->
+  exists a1 hd2,
+    addresses_from_str (fmt1 (v1_of_pair s d)) = Ok a1
+    /\ p2 (wire cmd tr (v2_of_pair s d) []) = Ok hd2
+    /\ endpoints1 a1 = endpoints2 (haddresses hd2)
+    /\ endpoints1 a1 = pair_endpoints s d.
+Proof.
+  intros Hs Hd.
+  destruct (pair_round_v1 s d Hs Hd) as (R1 & _).
+  assert (Hl : lenN (enc_addrs (v2_of_pair s d) ++ tlvs_payload []) <= 65535).
+  { unfold tlvs_payload. cbn [map concat]. rewrite app_nil_r. pose proof (pair_block_small s d Hs Hd). lia. }
+  destruct (pair_round_v2 cmd tr s d [] Hs Hd eq_refl Hl) as (hd & R2 & E2).
+  exists (v1_of_pair s d), hd. repeat split; try assumption.
+  - rewrite E2. apply pair_endpoints1.
+  - apply pair_endpoints1.
+Qed.
